@@ -418,4 +418,48 @@ theorem C20_gen_argument_untouched :
     Generated.C20.argumentWrites = some (writeTable implInPlace) := by
   rw [C20_write_table_impl]; decide
 
+/-! ### The shared vocabulary of `Spec` and `verImpl` against the XEP's wording (review C20-3) -/
+
+/-- the rendering of an identity is XEP-0115 5.1 step 2 written out as an intercalation -/
+theorem C20_identity_is_xep (i : Identity) : renderId i = xepIdentity i := by
+  simp [renderId, xepIdentity, List.intersperse]
+
+/-- where the XEP defines the `FORM_TYPE` of a form (exactly one field of that name with exactly
+one value) the code's `formType` is that value, and the field is not hashed as data -/
+theorem C20_formType_is_xep (F : Form) (t : Bytes) (h : F.xepType = some t) :
+    F.formType = t ∧ ∀ fd ∈ F.dataFields, fd.var ≠ formTypeVar := by
+  refine ⟨?_, ?_⟩
+  · unfold Form.xepType at h
+    split at h
+    · rename_i fd hf
+      split at h
+      · rename_i v hv
+        simp only [Option.some.injEq] at h
+        subst h
+        have hmem : fd ∈ F.fields.filter (fun fd => fd.var == formTypeVar) := by rw [hf]; simp
+        unfold Form.formType
+        have hfind : F.fields.find? (fun fd => fd.var == formTypeVar) = some fd := by
+          have := List.head?_filter (p := fun fd : Field => fd.var == formTypeVar) (l := F.fields)
+          rw [hf] at this
+          simpa using this.symm
+        rw [hfind]
+        simp only [hv]
+      · simp at h
+    · simp at h
+  · intro fd hfd
+    unfold Form.dataFields at hfd
+    simp only [List.mem_filter, bne_iff_ne, ne_eq] at hfd
+    exact hfd.2
+
+/-- the three decisions that are NOT in the XEP, as values of the model (the code's behaviour
+where `xepType` is undefined): no FORM_TYPE → the empty type and the fields are hashed; a
+FORM_TYPE with two values → the first; two FORM_TYPE fields → the first, the second dropped -/
+theorem C20_beyond_xep :
+    (⟨[⟨[0x61], [[0x31]]⟩]⟩ : Form).xepType = none ∧ renderForm ⟨[⟨[0x61], [[0x31]]⟩]⟩ = [0x3c, 0x61, 0x3c, 0x31, 0x3c] ∧
+    (⟨[⟨formTypeVar, [[0x75], [0x74]]⟩]⟩ : Form).xepType = none ∧ (⟨[⟨formTypeVar, [[0x75], [0x74]]⟩]⟩ : Form).formType = [0x75] ∧
+    (⟨[⟨formTypeVar, [[0x74]]⟩, ⟨formTypeVar, [[0x75]]⟩]⟩ : Form).xepType = none ∧
+      renderForm ⟨[⟨formTypeVar, [[0x74]]⟩, ⟨formTypeVar, [[0x75]]⟩]⟩ = [0x74, 0x3c] := by
+  simp [Form.xepType, renderForm, Form.formType, Form.dataFields, formTypeVar, renderField, sortStrings,
+    renderFeat, lt]
+
 end XmppModel.Props.C20
